@@ -3,13 +3,15 @@
 (* (opcode with operands, change of the operand-stack height, distance to the next executed       *)
 (* instruction of the same frame) must be a transition of the abstract machine GoatVMAbs.         *)
 (* A line with kind = "residue" reports how many values a statement-only program left (must be 0).*)
+(* A line with kind = "fresh" reports the type tag found in a local slot (parameters excepted) by    *)
+(* the first store of a new call frame: it must be 0 (an empty slot) - frames are isolated.          *)
 EXTENDS GoatVMEffects, TLC, Json
 CONSTANT TraceFile
 Trace == ndJsonDeserialize(TraceFile)
 VARIABLES l, nbad
 tvars == <<l, nbad>>
 Ev == Trace[l]
-LineOK(e) == IF e.kind = "residue" THEN e.n = 0
+LineOK(e) == IF e.kind \in {"residue", "fresh"} THEN e.n = 0
              ELSE <<1 + e.next, e.delta>> \in SuccI(e, 1, 0)
 TGood == l <= Len(Trace) /\ LineOK(Ev) /\ l' = l + 1 /\ UNCHANGED nbad
 TBad  == l <= Len(Trace) /\ ~LineOK(Ev) /\ PrintT(<<"BAD", ToString(l)>>) /\ l' = l + 1 /\ nbad' = nbad + 1
